@@ -35,6 +35,8 @@ import Chrono.Proofs.ZonedStepL
 import Chrono.Proofs.ZonedFormatL
 import Chrono.Proofs.ZonedRuleL
 import Chrono.Proofs.ZonedViewsL
+import Chrono.Proofs.ZonedConvL
+import Chrono.Extracted.ZonedShape
 
 namespace Chrono.Props.C04
 open Chrono Chrono.M Chrono.Spec Chrono.Proofs Chrono.Proofs.ZN Chrono.Extracted
@@ -1082,6 +1084,379 @@ example :
     Zoned.naive_local ⟨NaiveDT.MAX, 3600⟩ = .panic ∧
     Zoned.naive_local (Zoned.to_utc ⟨NaiveDT.MAX, 3600⟩) = .ok NaiveDT.MAX ∧
     Zoned.from_local_datetime (-3600) ⟨Date.MAX, ⟨82799, 999999999⟩⟩ = .ok (some ⟨NaiveDT.MAX, -3600⟩) := by
+  decide +kernel
+
+/-! ## Second audit (2026-09-30) -/
+
+/-! ### The shape of the types eq / ord / hash rest on (source facts no body pin sees) -/
+
+/-- **shape_pins.**  Re-extracted from /repo on every run (tools/extractors/zoned_shape.py): `NaiveDateTime`,
+`NaiveDate`, `NaiveTime` DERIVE `PartialEq, Eq, Hash, PartialOrd, Ord` (no hand-written impl of any of them in
+their files), with the fields `date, time` / `yof` / `secs, frac` in this order — what `NaiveDT.cmp` (date, then
+time), `Time.cmp` (secs, then frac) and `NaiveDT.hashWords` (`[yof, secs, frac]`) were written from; `DateTime`
+derives none of them and implements all five by hand (the pinned `impl PartialEq / PartialOrd / Ord / Hash for
+DateTime` bodies, which look at `self.datetime` only), its fields are `datetime` (the UTC reading), `offset`. -/
+theorem shape_pins :
+    ZonedShape.NaiveDateTime_DERIVE = ["PartialEq", "Eq", "Hash", "PartialOrd", "Ord", "Copy", "Clone"] ∧
+    ZonedShape.NaiveDateTime_FIELDS = [("date", "NaiveDate"), ("time", "NaiveTime")] ∧
+    ZonedShape.NaiveDateTime_IMPLS = [] ∧
+    ZonedShape.NaiveDate_DERIVE = ["PartialEq", "Eq", "Hash", "PartialOrd", "Ord", "Copy", "Clone"] ∧
+    ZonedShape.NaiveDate_FIELDS = [("yof", "NonZeroI32")] ∧ ZonedShape.NaiveDate_IMPLS = [] ∧
+    ZonedShape.NaiveTime_DERIVE = ["PartialEq", "Eq", "Hash", "PartialOrd", "Ord", "Copy", "Clone"] ∧
+    ZonedShape.NaiveTime_FIELDS = [("secs", "u32"), ("frac", "u32")] ∧ ZonedShape.NaiveTime_IMPLS = [] ∧
+    ZonedShape.DateTime_DERIVE = ["Clone"] ∧
+    ZonedShape.DateTime_FIELDS = [("datetime", "NaiveDateTime"), ("offset", "Tz::Offset")] ∧
+    ZonedShape.DateTime_IMPLS = ["PartialEq", "Eq", "PartialOrd", "Ord", "Hash"] := by decide
+
+/-- the model side of `shape_pins`: the derived order is lexicographic in declaration order — a difference in
+the date decides whatever the times are, then the second, then the nanosecond field; the hash words are the
+three fields in declaration order -/
+theorem derived_order_shape (a b : NaiveDT) :
+    (Date.cmp a.date b.date ≠ 0 → NaiveDT.cmp a b = Date.cmp a.date b.date) ∧
+    (Date.cmp a.date b.date = 0 → NaiveDT.cmp a b = Time.cmp a.time b.time) ∧
+    NaiveDT.hashWords a = [a.date.yof, a.time.secs, a.time.frac] := by
+  refine ⟨?_, ?_, rfl⟩
+  · intro h; unfold NaiveDT.cmp; simp only [h, ne_eq, not_false_eq_true, if_true]
+  · intro h; unfold NaiveDT.cmp; simp only [h, ne_eq, not_true_eq_false, if_false]
+
+example : NaiveDT.cmp ⟨dateOfYo 2024 59, ⟨86399, 1999999999⟩⟩ ⟨dateOfYo 2024 60, ⟨0, 0⟩⟩ = -1 ∧
+    NaiveDT.cmp ⟨dateOfYo 2024 60, ⟨5, 999999999⟩⟩ ⟨dateOfYo 2024 60, ⟨6, 0⟩⟩ = -1 ∧
+    NaiveDT.cmp ⟨dateOfYo 2024 60, ⟨5, 1⟩⟩ ⟨dateOfYo 2024 60, ⟨5, 0⟩⟩ = 1 := by decide +kernel
+
+/-- **eq_hash_by_instant** (the observable form of "offsets do not enter"): two well-formed values — whatever
+their offsets — that denote the same instant (same nanosecond count) with the same nanosecond field are equal,
+compare `Equal` and hash the same words. -/
+theorem eq_hash_by_instant (a b : Zoned) (ha : ZInv a) (hb : ZInv b)
+    (hi : instSecs a.utc = instSecs b.utc) (hf : a.utc.time.frac = b.utc.time.frac) :
+    Zoned.eq a b = true ∧ Zoned.cmp a b = 0 ∧ Zoned.hashWords a = Zoned.hashWords b := by
+  obtain ⟨_, _, h3, h4, h5⟩ := cmp_by_instant a b ha hb
+  have he : Zoned.eq a b = true := h3.mpr ⟨hi, hf⟩
+  exact ⟨he, h4.mp he, h5.mpr he⟩
+
+example : ZInv ⟨⟨dateOfYo 2024 60, ⟨0, 7⟩⟩, 3600⟩ ∧ ZInv ⟨⟨dateOfYo 2024 60, ⟨0, 7⟩⟩, -7200⟩ := by decide +kernel
+
+/-! ### `date_naive()` / deprecated `date()` -/
+
+/-- **date_naive_spec.**  `date_naive()` (and the deprecated `date()`, which also carries the offset) returns the
+DATE of the wall clock — the date whose day number is that of `instant + offset` — when that date lies in the
+supported range, and PANICS exactly when the wall clock lies in a headroom day (it is the one remaining public
+caller of the panicking `naive_local()`; the non-panicking accessors of `accessors_read_wall_clock` read the same
+date). -/
+theorem date_naive_spec (z : Zoned) (hz : ZInv z) :
+    ∃ l, Zoned.overflowing_naive_local z = .ok l ∧ ExtNDTInv l ∧ instSecs l = wallSecs z ∧
+      Zoned.date_naive z = (if InRangeSecs (wallSecs z) then .ok l.date else .panic) ∧
+      Zoned.date_deprecated z = (if InRangeSecs (wallSecs z) then .ok (l.date, z.off) else .panic) ∧
+      (DateInv l.date ↔ InRangeSecs (wallSecs z)) ∧
+      l.date = dateOfYo l.date.year l.date.ordinal.toNat ∧
+      dayNumYo l.date.year l.date.ordinal.toNat = EPOCH_DAY + wallSecs z / 86400 := by
+  obtain ⟨l, h1, h2, h3, _, h5, h6⟩ := naive_local_spec z hz
+  obtain ⟨e, _, _, _, _⟩ := ext_eq l.date h2.1
+  obtain ⟨t1, t2, _, _⟩ := h2.2
+  have hsecs := instSecs_ext l h2.1
+  rw [h3] at hsecs
+  refine ⟨l, h1, h2, h3, ?_, ?_, h6, e, by omega⟩
+  · unfold Zoned.date_naive; rw [h5]
+    by_cases hin : InRangeSecs (wallSecs z)
+    · rw [if_pos hin, if_pos hin]; rfl
+    · rw [if_neg hin, if_neg hin]; rfl
+  · unfold Zoned.date_deprecated; rw [h5]
+    by_cases hin : InRangeSecs (wallSecs z)
+    · rw [if_pos hin, if_pos hin]; rfl
+    · rw [if_neg hin, if_neg hin]; rfl
+
+/-- non-vacuity: 23:30Z on 2024-02-28 at +01:00 is the 29th; `MIN_UTC` at −01:00 and `MAX_UTC` at +00:00:01 panic,
+`MAX_UTC` at offset 0 does not -/
+example :
+    Zoned.date_naive ⟨⟨dateOfYo 2024 59, ⟨84600, 0⟩⟩, 3600⟩ = .ok (dateOfYo 2024 60) ∧
+    Zoned.date_naive ⟨NaiveDT.MIN, -3600⟩ = .panic ∧ Zoned.date_naive ⟨NaiveDT.MAX, 1⟩ = .panic ∧
+    Zoned.date_deprecated ⟨NaiveDT.MAX, 1⟩ = .panic ∧
+    Zoned.date_naive ⟨NaiveDT.MAX, 0⟩ = .ok Date.MAX ∧ Zoned.date_deprecated ⟨NaiveDT.MIN, 60⟩ = .ok (Date.MIN, 60) := by
+  decide +kernel
+
+/-! ### Conversions between `DateTime<Utc>` and `DateTime<FixedOffset>`, `and_utc`, `from_utc` -/
+
+/-- **conversions_spec.**  `From<DateTime<Utc>> for DateTime<FixedOffset>` (never panics: `east_opt(0)` exists),
+`From<DateTime<FixedOffset>> for DateTime<Utc>`, `NaiveDateTime::and_utc()` and the deprecated
+`DateTime::from_utc(naive, offset)`: each keeps the stored UTC reading — hence the instant —, the results at offset
+0 are well formed, equal to the original, hash the same, and their wall clock IS the UTC reading (`naive_local`
+returns it and never panics); `from_utc` is `from_utc_datetime`. -/
+theorem conversions_spec (z : Zoned) (hz : ZInv z) :
+    Zoned.fixed_from_utc (Zoned.to_utc z) = .ok ⟨z.utc, 0⟩ ∧
+    Zoned.utc_from_fixed z = ⟨z.utc, 0⟩ ∧ Zoned.and_utc z.utc = ⟨z.utc, 0⟩ ∧
+    ZInv (Zoned.utc_from_fixed z) ∧ zonedInstNs (Zoned.utc_from_fixed z) = zonedInstNs z ∧
+    Zoned.eq (Zoned.utc_from_fixed z) z = true ∧ Zoned.cmp (Zoned.utc_from_fixed z) z = 0 ∧
+    Zoned.hashWords (Zoned.utc_from_fixed z) = Zoned.hashWords z ∧
+    Zoned.overflowing_naive_local (Zoned.and_utc z.utc) = .ok z.utc ∧
+    Zoned.naive_local (Zoned.and_utc z.utc) = .ok z.utc ∧
+    (∀ off, Zoned.from_utc_deprecated z.utc off = Zoned.from_utc_datetime off z.utc ∧
+      (Zoned.from_utc_deprecated z.utc off).naive_utc = z.utc) := by
+  obtain ⟨_, _, _, _, _, _, _, c8, c9, c10, _, c12⟩ := zone_change_views z hz 0 (by unfold OffValid; omega)
+  obtain ⟨_, _, _, _, w5, w6, w7, _, _⟩ := with_timezone_keeps_instant z 0
+  exact ⟨rfl, rfl, rfl, c8, rfl, w5, w6, w7, c10, c9, fun _ => ⟨rfl, rfl⟩⟩
+
+example : ZInv ⟨NaiveDT.MAX, 3600⟩ ∧ Zoned.naive_local ⟨NaiveDT.MAX, 3600⟩ = .panic ∧
+    Zoned.naive_local (Zoned.utc_from_fixed ⟨NaiveDT.MAX, 3600⟩) = .ok NaiveDT.MAX ∧
+    Zoned.fixed_from_utc ⟨NaiveDT.MIN, 0⟩ = .ok ⟨NaiveDT.MIN, 0⟩ := by decide +kernel
+
+/-! ### Building from a wall clock: `and_local_timezone`, deprecated (panicking) `DateTime::from_local` -/
+
+/-- **from_local_forms.**  `NaiveDateTime::and_local_timezone(offset)` is `from_local_datetime` (so
+`fromLocal_fails_iff` / `local_of_fromLocal` speak about it).  The deprecated `DateTime::from_local(wall clock,
+offset)` (`datetime - offset.fix()`, an `expect`) PANICS exactly when `wall clock − offset` leaves the supported
+range, and otherwise returns exactly the value `from_local_datetime` returns — offset kept, well formed, instant
+`wall clock − offset`, `naive_local` reads the wall clock back. -/
+theorem from_local_forms (off : Int) (ℓ : NaiveDT) (ho : OffValid off) (hℓ : NDTInv ℓ) :
+    Zoned.and_local_timezone ℓ off = Zoned.from_local_datetime off ℓ ∧
+    (Zoned.from_local_deprecated ℓ off = .panic ↔ ¬ InRangeSecs (instSecs ℓ - off)) ∧
+    (∀ z, Zoned.from_local_deprecated ℓ off = .ok z ↔ Zoned.from_local_datetime off ℓ = .ok (some z)) ∧
+    (∀ z, Zoned.from_local_deprecated ℓ off = .ok z →
+      z.off = off ∧ ZInv z ∧ Zoned.naive_local z = .ok ℓ ∧ instSecs z.utc = instSecs ℓ - off ∧
+      z.utc.time.frac = ℓ.time.frac) := by
+  obtain ⟨r, hr, hiff⟩ := fromLocal_fails_iff off ℓ ho hℓ
+  have key : (Zoned.from_local_deprecated ℓ off = .panic ↔ r = none) ∧
+      (∀ z, Zoned.from_local_deprecated ℓ off = .ok z ↔ r = some z) := by
+    unfold Zoned.from_local_datetime at hr
+    unfold Zoned.from_local_deprecated
+    cases hc : ℓ.checked_sub_offset off with
+    | panic => rw [hc] at hr; cases hr
+    | ok o =>
+      rw [hc] at hr
+      have hr' : Res.ok (o.map fun u => (⟨u, off⟩ : Zoned)) = Res.ok r := hr
+      injection hr' with hr'
+      subst hr'
+      cases o with
+      | none =>
+        refine ⟨⟨fun _ => rfl, fun _ => rfl⟩, fun z => ⟨?_, ?_⟩⟩
+        · intro h; cases h
+        · intro h; cases h
+      | some u =>
+        refine ⟨⟨?_, ?_⟩, fun z => ⟨?_, ?_⟩⟩
+        · intro h; cases h
+        · intro h; cases h
+        · intro h
+          have h' : Res.ok (⟨u, off⟩ : Zoned) = Res.ok z := h
+          injection h' with h'; rw [← h']; rfl
+        · intro h
+          have h' : some (⟨u, off⟩ : Zoned) = some z := h
+          injection h' with h'; rw [← h']; rfl
+  refine ⟨rfl, by rw [key.1, hiff], ?_, ?_⟩
+  · intro z; rw [key.2 z, hr]
+    constructor
+    · intro h; rw [h]
+    · intro h; injection h
+  · intro z h
+    have hz : Zoned.from_local_datetime off ℓ = .ok (some z) := by rw [hr, (key.2 z).mp h]
+    obtain ⟨a, b, c, _, e, f⟩ := local_of_fromLocal off ℓ ho hℓ z hz
+    exact ⟨a, b, c, e, f⟩
+
+example : Zoned.from_local_deprecated NaiveDT.MIN 1 = .panic ∧ Zoned.and_local_timezone NaiveDT.MIN 1 = .ok none ∧
+    Zoned.from_local_deprecated NaiveDT.MIN (-1) = .ok ⟨⟨Date.MIN, ⟨1, 0⟩⟩, -1⟩ ∧
+    NDTInv NaiveDT.MIN ∧ ¬ InRangeSecs (instSecs NaiveDT.MIN - 1) := by decide +kernel
+
+/-! ### `DateTime + Days`, `DateTime - Days` -/
+
+/-- **days_operators_spec.**  The operators are `expect` of the checked forms: `Days(0)` returns the value; for
+`0 < n ≤ u64::MAX` they PANIC exactly when the rule of `day_stepping_vs_rule` has no result (stepped instant outside
+`MIN_UTC ..= MAX_UTC` or stepped wall clock outside the nominal range) and otherwise return exactly the value the
+checked form returns (`stepping_spec`: wall clock moved by `n` whole days). -/
+theorem days_operators_spec (z : Zoned) (hz : ZInv z) :
+    Zoned.add_days_op z 0 = .ok z ∧ Zoned.sub_days_op z 0 = .ok z ∧
+    ∀ n : Int, 0 < n → n ≤ 18446744073709551615 →
+      (Zoned.add_days_op z n = .panic ↔ ¬ (InUtcRange (instSecs z.utc + n * 86400) z.utc.time.frac ∧
+                                            InRangeSecs (wallSecs z + n * 86400))) ∧
+      (∀ z', Zoned.add_days_op z n = .ok z' ↔ Zoned.checked_add_days z n = .ok (some z')) ∧
+      (Zoned.sub_days_op z n = .panic ↔ ¬ (InUtcRange (instSecs z.utc - n * 86400) z.utc.time.frac ∧
+                                            InRangeSecs (wallSecs z - n * 86400))) ∧
+      (∀ z', Zoned.sub_days_op z n = .ok z' ↔ Zoned.checked_sub_days z n = .ok (some z')) := by
+  obtain ⟨z0, z1⟩ := day_stepping_zero z hz
+  refine ⟨by unfold Zoned.add_days_op; rw [z0]; rfl, by unfold Zoned.sub_days_op; rw [z1]; rfl, ?_⟩
+  intro n hn1 hn2
+  obtain ⟨⟨r, a, b⟩, ⟨r', a', b'⟩⟩ := day_stepping_vs_rule z hz n hn1 hn2
+  obtain ⟨p1, p2⟩ := ZNC.expectSome_ok _ r a
+  obtain ⟨q1, q2⟩ := ZNC.expectSome_ok _ r' a'
+  refine ⟨by unfold Zoned.add_days_op; rw [p1, b], ?_, by unfold Zoned.sub_days_op; rw [q1, b'], ?_⟩
+  · intro z'; unfold Zoned.add_days_op; rw [p2 z', a]
+    constructor
+    · intro h; rw [h]
+    · intro h; injection h
+  · intro z'; unfold Zoned.sub_days_op; rw [q2 z', a']
+    constructor
+    · intro h; rw [h]
+    · intro h; injection h
+
+example : Zoned.add_days_op ⟨NaiveDT.MAX, 3600⟩ 1 = .panic ∧ Zoned.sub_days_op ⟨NaiveDT.MIN, -3600⟩ 1 = .panic ∧
+    Zoned.sub_days_op ⟨NaiveDT.MIN, -3600⟩ 0 = .ok ⟨NaiveDT.MIN, -3600⟩ ∧
+    Zoned.add_days_op ⟨NaiveDT.MIN, -3600⟩ 1 = .ok ⟨⟨dateOfYo MIN_YEAR 2, ⟨0, 0⟩⟩, -3600⟩ := by decide +kernel
+
+/-! ### RFC 3339 / Serialize text in the headroom day -/
+
+/-- **rfc3339_headroom_text.**  For EVERY well-formed value whose wall clock lies in a headroom day (where C10's
+field theorem `writer_fields_exact`, stated for wall-clock years 0–9999, does not apply), every precision, with and
+without `Z`: `to_rfc3339_opts`, `to_rfc3339` and `Serialize` return exactly `ZNC.headRfcText`: the calendar's own
+date of that day — `-262144-12-31` when the wall clock is before the range, `+262143-01-01` when after —, `T`,
+the two-digit hour / minute / second of `(instant + offset) mod 86400` (second + 1 for a leap-second representation),
+the fraction of the sub-second nanoseconds at the requested precision (C10's `fracText`), and the offset text
+(C10's `offText`).  With `format_reads_wall_clock` (Debug / Display) this puts every text writer except the
+`strftime` items under a theorem in the headroom day (`to_rfc2822` panics there: wall-clock year outside 0–9999). -/
+theorem rfc3339_headroom_text (z : Zoned) (hz : ZInv z) (hh : ¬ InRangeSecs (wallSecs z)) :
+    (∀ sf use_z, Rfc3339.to_rfc3339_opts z sf use_z = .ok (ZNC.headRfcText z sf use_z)) ∧
+    Rfc3339.to_rfc3339 z = .ok (ZNC.headRfcText z .autoSi false) ∧
+    Serde.DateTimeStr.serialize z = Format.wok (ZNC.headRfcText z .autoSi true) ∧
+    Rfc2822.to_rfc2822 z = .panic ∧ Zoned.naive_local z = .panic := by
+  obtain ⟨l, h1, h2, h3, _, h5, h6⟩ := naive_local_spec z hz
+  obtain ⟨w1, w2, w3, w4, _⟩ := ZNF.writers_of_wall z l h1
+  have hw := ZNC.head_rfc3339 z hz hh l h1
+  refine ⟨fun sf use_z => by rw [w1, hw]; rfl, by rw [w2, hw]; rfl, by rw [w4, hw], ?_, by rw [h5, if_neg hh]⟩
+  rw [w3]
+  obtain ⟨_, _, _, hho, _⟩ := wall_date_cases z hz l h1
+  have hnd : ¬ DateInv l.date := fun h => hh (h6.mp h)
+  obtain ⟨_, _, y1, _, _, y2, _⟩ := ZNC.headroom_ymd
+  have hy : ¬ (0 ≤ l.date.year ∧ l.date.year ≤ 9999) := by
+    rcases hho with h | h | h
+    · exact absurd h hnd
+    · rw [h, y1]; omega
+    · rw [h, y2]; omega
+  unfold Format.write_rfc2822
+  simp only [hy, not_false_eq_true, if_true]
+  rfl
+
+/-- non-vacuity and what the text is on the inputs of the fixed findings F04 / F06, a leap second in the headroom
+day, millisecond precision with `Z` -/
+example :
+    ZInv ⟨NaiveDT.MAX, 3600⟩ ∧ ¬ InRangeSecs (wallSecs ⟨NaiveDT.MAX, 3600⟩) ∧
+    ZNC.headRfcText ⟨NaiveDT.MAX, 3600⟩ .autoSi false = asciiBytes "+262143-01-01T00:59:59.999999999+01:00" ∧
+    ZNC.headRfcText ⟨NaiveDT.MIN, -3600⟩ .secs true = asciiBytes "-262144-12-31T23:00:00-01:00" ∧
+    ZNC.headRfcText ⟨⟨Date.MAX, ⟨86399, 1500000000⟩⟩, 60⟩ .millis true = asciiBytes "+262143-01-01T00:00:60.500+00:01" := by
+  decide +kernel
+
+/-! ### `format` / `format_with_items`: the date specifiers on the two headroom days -/
+
+/-- **format_headroom_dates.**  C12's `numeric_ok` speaks about years `MIN_YEAR ..= MAX_YEAR`; in the headroom day
+the wall-clock date handed to the item formatter (`format_reads_wall_clock`, last two conjuncts) is one of the two
+constants, so every date specifier is settled by kernel evaluation: the item formatter, given `BEFORE_MIN` resp.
+`AFTER_MAX`, prints the text of the calendar's own day — signed year `-262144` / `+262143`, century by floored
+division (`-2622`), two-digit year by Euclidean remainder (`56`), month, day, day of year `366` / `001`, ISO year and
+week (`-262143`-W01 / `+262143`-W01), weekday (Wednesday / Tuesday), Sunday- and Monday-based week numbers, `%F`,
+`%D`, `%x`.  (The expected texts were also observed on the real crate, and the harness oracle `znf.fmt` compares
+them on sampled headroom values; the time and offset specifiers do not look at the date.) -/
+theorem format_headroom_dates :
+    (∀ p ∈ ([("%Y", "-262144"), ("%C", "-2622"), ("%y", "56"), ("%m", "12"), ("%d", "31"), ("%e", "31"), ("%j", "366"), ("%G", "-262143"), ("%g", "57"), ("%V", "01"), ("%u", "3"), ("%w", "3"), ("%a", "Wed"), ("%A", "Wednesday"), ("%b", "Dec"), ("%B", "December"), ("%h", "Dec"), ("%U", "52"), ("%W", "52"), ("%F", "-262144-12-31"), ("%D", "12/31/56"), ("%x", "12/31/56")] : List (String × String)),
+      Format.formatItemsR (some Date.BEFORE_MIN) none none (Strftime.items (asciiBytes p.1)) = Format.wok (asciiBytes p.2)) ∧
+    (∀ p ∈ ([("%Y", "+262143"), ("%C", "2621"), ("%y", "43"), ("%m", "01"), ("%d", "01"), ("%e", " 1"), ("%j", "001"), ("%G", "+262143"), ("%g", "43"), ("%V", "01"), ("%u", "2"), ("%w", "2"), ("%a", "Tue"), ("%A", "Tuesday"), ("%b", "Jan"), ("%B", "January"), ("%h", "Jan"), ("%U", "00"), ("%W", "00"), ("%F", "+262143-01-01"), ("%D", "01/01/43"), ("%x", "01/01/43")] : List (String × String)),
+      Format.formatItemsR (some Date.AFTER_MAX) none none (Strftime.items (asciiBytes p.1)) = Format.wok (asciiBytes p.2)) := by
+  decide +kernel
+
+/-! ### End to end: translated code = specification -/
+
+/-- **gen_wall_clock_sound.**  Composition of the code-translation theorems of Props/GenDateTime.lean (Lean text
+generated from the Rust source = model) with `headroom_sound` (model = specification).  The bodies of
+`DateTime::overflowing_naive_local` / `naive_local` are `self.datetime.overflowing_add_offset(self.offset.fix())` /
+`self.datetime.checked_add_offset(self.offset.fix()).expect(..)` (pinned; `fix` of a `FixedOffset` is the identity,
+pinned as `impl Offset for FixedOffset`): the TRANSLATED `NaiveDateTime::overflowing_add_offset` applied to the
+stored UTC reading and the offset returns THE reading of `instant + offset` in the extended calendar, and the
+translated `checked_add_offset` returns it exactly when it lies in the nominal range (`None`, i.e. the panic of
+`naive_local` / `date_naive`, exactly in the headroom day). -/
+theorem gen_wall_clock_sound (z : Zoned) (hz : ZInv z) :
+    ∃ l, ExtNDTInv l ∧ instSecs l = wallSecs z ∧ l.time.frac = z.utc.time.frac ∧
+      Gen.naive_datetime.NaiveDateTime.overflowing_add_offset (GenDateTime.ndtG z.utc) z.off
+        = .ok (GenDateTime.ndtG l) ∧
+      Gen.naive_datetime.NaiveDateTime.checked_add_offset (GenDateTime.ndtG z.utc) z.off
+        = .ok (if InRangeSecs (wallSecs z) then some (GenDateTime.ndtG l) else none) := by
+  obtain ⟨l, h1, h2, h3, h4, h5, _⟩ := naive_local_spec z hz
+  obtain ⟨hd, hol⟩ := ZNC.dateOk_of_inv z.utc.date hz.1.1
+  refine ⟨l, h2, h3, h4, ?_, ?_⟩
+  · rw [GenDateTime.gen_overflowing_add_offset_eq z.utc z.off hd hol]
+    have : z.utc.overflowing_add_offset z.off = .ok l := h1
+    rw [this]; rfl
+  · rw [GenDateTime.gen_checked_add_offset_eq z.utc z.off hd hol]
+    unfold Zoned.naive_local at h5
+    cases hc : z.utc.checked_add_offset z.off with
+    | panic => rw [hc] at h5; by_cases hin : InRangeSecs (wallSecs z)
+               · rw [if_pos hin] at h5; cases h5
+               · rw [if_neg hin] at h5
+                 exfalso
+                 -- a panic of `checked_add_offset` itself is impossible: `overflowing_…` on the same input is `.ok`
+                 have h1' : z.utc.overflowing_add_offset z.off = .ok l := h1
+                 unfold NaiveDT.checked_add_offset at hc
+                 unfold NaiveDT.overflowing_add_offset at h1'
+                 cases ht : Time.overflowing_add_offset z.utc.time z.off with
+                 | panic => rw [ht] at h1'; cases h1'
+                 | ok p =>
+                   rw [ht] at hc h1'
+                   simp only [bind_ok'] at hc h1'
+                   split at hc
+                   · rename_i c1; rw [if_pos c1] at h1'
+                     cases hp : z.utc.date.pred_opt with
+                     | panic => rw [hp] at h1'; cases h1'
+                     | ok q => rw [hp] at hc; cases hc
+                   · split at hc
+                     · rename_i c1 c2; rw [if_neg c1, if_pos c2] at h1'
+                       cases hp : z.utc.date.succ_opt with
+                       | panic => rw [hp] at h1'; cases h1'
+                       | ok q => rw [hp] at hc; cases hc
+                     · cases hc
+    | ok o =>
+      rw [hc] at h5
+      by_cases hin : InRangeSecs (wallSecs z)
+      · rw [if_pos hin] at h5 ⊢
+        cases o with
+        | none => cases h5
+        | some d =>
+          have : Res.ok d = Res.ok l := h5
+          injection this with this; subst this; rfl
+      · rw [if_neg hin] at h5 ⊢
+        cases o with
+        | none => rfl
+        | some d => cases h5
+
+/-- **gen_from_local_sound.**  Likewise for construction from a wall clock: `TimeZone::from_local_datetime` for a
+`FixedOffset` is `local.checked_sub_offset(offset)` mapped into a `DateTime` (`offset_from_local_datetime =
+Single(*self)`, pinned as `impl TimeZone for FixedOffset`); the TRANSLATED `NaiveDateTime::checked_sub_offset` fails
+exactly when `wall clock − offset` leaves the supported range and otherwise returns the UTC reading of the value
+`local_of_fromLocal` speaks about. -/
+theorem gen_from_local_sound (off : Int) (ℓ : NaiveDT) (ho : OffValid off) (hℓ : NDTInv ℓ) :
+    ∃ r, Gen.naive_datetime.NaiveDateTime.checked_sub_offset (GenDateTime.ndtG ℓ) off
+        = .ok (r.map fun (z : Zoned) => GenDateTime.ndtG z.utc) ∧
+      Zoned.from_local_datetime off ℓ = .ok r ∧ (r = none ↔ ¬ InRangeSecs (instSecs ℓ - off)) ∧
+      ∀ z, r = some z → z.off = off ∧ ZInv z ∧ instSecs z.utc = instSecs ℓ - off ∧
+        z.utc.time.frac = ℓ.time.frac := by
+  obtain ⟨r, hr, hiff⟩ := fromLocal_fails_iff off ℓ ho hℓ
+  obtain ⟨hd, hol⟩ := ZNC.dateOk_of_inv ℓ.date hℓ.1
+  refine ⟨r, ?_, hr, hiff, ?_⟩
+  · rw [GenDateTime.gen_checked_sub_offset_eq ℓ off hd hol]
+    unfold Zoned.from_local_datetime at hr
+    cases hc : ℓ.checked_sub_offset off with
+    | panic => rw [hc] at hr; cases hr
+    | ok o =>
+      rw [hc] at hr
+      have hr' : Res.ok (o.map fun u => (⟨u, off⟩ : Zoned)) = Res.ok r := hr
+      injection hr' with hr'
+      subst hr'
+      cases o <;> rfl
+  · intro z hz'
+    obtain ⟨a, b, _, _, e, f⟩ := local_of_fromLocal off ℓ ho hℓ z (by rw [hr, hz'])
+    exact ⟨a, b, e, f⟩
+
+/-- the translated offset constructors and accessors are the model's (`east_opt_iff` speaks about them) -/
+theorem gen_offsets_sound (s : Int) (hs : -2147483648 ≤ s ∧ s ≤ 2147483647) :
+    Gen.offset_fixed.FixedOffset.east_opt s = (if -86400 < s ∧ s < 86400 then some s else none) ∧
+    Gen.offset_fixed.FixedOffset.west_opt s = .ok (if -86400 < s ∧ s < 86400 then some (-s) else none) :=
+  ⟨GenDateTime.gen_east_opt_eq s, GenDateTime.gen_west_opt_eq s hs⟩
+
+/-! ### Identity replacement on the one well-formed value class above `MAX_UTC` (audit 2, L2) -/
+
+/-- `x = +262142-12-31T23:59:60.5Z` (well formed, compares greater than `MAX_UTC`): replacing a field by its own
+value is REFUSED (the `MIN_UTC ..= MAX_UTC` filter of `map_local` / `with_time`; inside `map_local_spec`), while
+`Days(0)` / `Months(0)` return the value -/
+example :
+    ZInv ⟨⟨Date.MAX, ⟨86399, 1500000000⟩⟩, 0⟩ ∧
+    Zoned.with_year ⟨⟨Date.MAX, ⟨86399, 1500000000⟩⟩, 0⟩ MAX_YEAR = .ok none ∧
+    Zoned.with_second ⟨⟨Date.MAX, ⟨86399, 1500000000⟩⟩, 0⟩ 59 = .ok none ∧
+    Zoned.with_day ⟨⟨Date.MAX, ⟨86399, 1500000000⟩⟩, 0⟩ 31 = .ok none ∧
+    Zoned.with_time ⟨⟨Date.MAX, ⟨86399, 1500000000⟩⟩, 0⟩ ⟨86399, 1500000000⟩ = .ok none ∧
+    Zoned.checked_add_days ⟨⟨Date.MAX, ⟨86399, 1500000000⟩⟩, 0⟩ 0 = .ok (some ⟨⟨Date.MAX, ⟨86399, 1500000000⟩⟩, 0⟩) ∧
+    Zoned.checked_sub_days ⟨⟨Date.MAX, ⟨86399, 1500000000⟩⟩, 0⟩ 0 = .ok (some ⟨⟨Date.MAX, ⟨86399, 1500000000⟩⟩, 0⟩) ∧
+    Zoned.checked_add_months ⟨⟨Date.MAX, ⟨86399, 1500000000⟩⟩, 0⟩ 0 = .ok (some ⟨⟨Date.MAX, ⟨86399, 1500000000⟩⟩, 0⟩) := by
   decide +kernel
 
 end Chrono.Props.C04
